@@ -41,6 +41,14 @@ def gen_cases(tier, seed):
     cs = []
     for i, b in enumerate(gen_cases_corpus(n, seed, opts={'max_stmts': 8, 'seed_vars': True}, with_repo=True)):
         cs.append({'base': b, 'k': i, 'nscripts': 3 if tier == 'quick' else 8})
+    # the systematic operator/builtin x operand-type programs of C01 (typed contexts: assignment, argument, index)
+    import random as _random
+    from . import c01
+    from ..gen import render as _render
+    nu = 60 if tier == 'quick' else 1200
+    for i in range(nu):
+        prog = c01.unit_program(_random.Random(seed * 7919 + i), i)
+        cs.append({'base': {'src': 'text', 'text': _render.render(prog)[0], 'seed': i}, 'k': i, 'nscripts': 1})
     for i, t in enumerate(DEVICE_ARG_FORMS):
         cs.append({'base': {'src': 'text', 'text': t, 'seed': i}, 'k': i, 'nscripts': 3, 'allcfg': True})
     return cs
